@@ -118,6 +118,7 @@ class Path:
 
 LT, EQ, GT, UN = "LT", "EQ", "GT", "UN"
 ALL4 = frozenset([LT, EQ, GT, UN])
+UN_SET = frozenset([UN])
 _PRED = {
     "oeq": {EQ}, "ogt": {GT}, "oge": {GT, EQ}, "olt": {LT}, "ole": {LT, EQ}, "one": {LT, GT}, "ord": {LT, EQ, GT},
     "ueq": {EQ, UN}, "ugt": {GT, UN}, "uge": {GT, EQ, UN}, "ult": {LT, UN}, "ule": {LT, EQ, UN},
@@ -668,6 +669,21 @@ class Executor:
                     return dag.fcmp_eval(pred, va, vb)
                 rel = (LT if vb > 0 else GT) if vb is not None else (GT if va > 0 else LT)
                 return rel in ps
+            if self.oracle is not None:
+                # concolic mode: the sample decides; no canonicalisation (expressions may be large rational functions)
+                try:
+                    val = dag.eval_ieee([cond], self.oracle)
+                    choice = bool(val[cond.id])
+                except Exception as e:
+                    raise PathAbort("oracle", "cannot evaluate branch condition on the concrete sample: %r" % (e,))
+                cst = b.args[0] if b.op == "const" else (a.args[0] if a.op == "const" else None)
+                newposs = frozenset(ps if choice else (ALL4 - UN_SET - ps)) if True else None
+                p.facts.setdefault(("n", (a if b.op == "const" else b).id) if cst is not None else ("nn", a.id, b.id), []).append(
+                    (cst, frozenset(_SWAP[x] for x in newposs) if (a.op == "const" and b.op != "const") else newposs))
+                p.atoms.append((cond, choice, "", cst, newposs))
+                p.trace.append((dag.show(cond, 3), choice, what))
+                p.sig.append((cond.id, choice))
+                return choice
             xkey, c, flip, xdesc = self.canon_cmp(a, b)
             if xkey is None:
                 return bool(ps & {EQ}) if c is True else self._const_rel(c, ps)
@@ -1050,9 +1066,13 @@ class Executor:
             sw, dw = ins.args[0].ty.a, ins.ty.a
             if isinstance(v, Node):
                 if v.prec == "b":
+                    # a symbolic truth value entering integer arithmetic (index selection etc.): case split
+                    b = self.decide(v, f.name + ":bool-to-int")
                     if op == "zext":
-                        return mk_int("zext_b", v, dw)
-                    raise Unsupported("sext/trunc of symbolic bool")
+                        return 1 if b else 0
+                    if op == "sext":
+                        return ((1 << dw) - 1) if b else 0
+                    return 1 if b else 0
                 return mk_int(op, v, dw)
             if isinstance(v, Ptr):
                 if op == "trunc":
